@@ -8,6 +8,7 @@ CONSTANTS
   PlusLocksKids = FALSE
   Scenario = "shrink"
   MaxTries = 6
+  RecheckName = TRUE
   LowestFree = FALSE
   OneOp = {1, 2, 3}
 INVARIANTS TypeOK Refines NoSelfWait NoDeadlock LocksReleased TakenReturned RetryBound
